@@ -68,6 +68,9 @@ type Op struct {
 	B    int       `json:"b,omitempty"`
 	N    int       `json:"n,omitempty"`
 	ID   int       `json:"id,omitempty"`
+	// Par (concurrent plans): this update is issued from a goroutine of its own,
+	// not serialized with the other updates
+	Par bool `json:"par,omitempty"`
 }
 
 type Plan struct {
@@ -138,6 +141,7 @@ func Generate(r *rand.Rand, profile string, concurrent bool, avoid map[string]bo
 			}
 			sp := genOpts(r, f, true)
 			o.Opts = &sp
+			o.Par = concurrent && r.IntN(3) == 0
 		case x < 50:
 			o.K = OpPool
 			o.A = r.IntN(5)
@@ -177,6 +181,7 @@ type fakePool struct {
 	// configuration index (position in sim.cfgHist) being applied when the pool
 	// was dialled / closed; closedCfg < 0: not closed by an update
 	openedCfg, closedCfg int
+	closedBy             *cfgRec // the update whose task closed the pool (nil: Close(), or none)
 }
 
 type rpcRec struct {
@@ -189,6 +194,7 @@ type rpcRec struct {
 	// started when it reached a pool]
 	conc         bool
 	lower, upper int
+	ti, tr       int // harness event sequence numbers: invoked / reached a pool
 }
 
 type lowKey struct{}
@@ -196,7 +202,13 @@ type lowKey struct{}
 type cfgRec struct {
 	mes map[string]MESpec
 	def string
+	// harness event sequence numbers: the update's task began to run / returned
+	// (-1: not yet); the construction has 0/0
+	startSeq, doneSeq int
+	task              *kern.Task
 }
+
+type rpcInfo struct{ lower, ti int }
 
 //go:norace
 func (p *fakePool) record(ctx context.Context) {
@@ -204,8 +216,9 @@ func (p *fakePool) record(ctx context.Context) {
 	p.rpcs++
 	name, _ := grpcgcp.FromMEContext(ctx)
 	rec := rpcRec{pool: p, name: name, wasClosed: p.closed > 0, seq: len(p.s.rpcs)}
-	if lo, ok := ctx.Value(lowKey{}).(int); ok {
-		rec.conc, rec.lower, rec.upper = true, lo, len(p.s.cfgHist)-1
+	if ri, ok := ctx.Value(lowKey{}).(rpcInfo); ok {
+		p.s.seq++
+		rec.conc, rec.lower, rec.upper, rec.ti, rec.tr = true, ri.lower, len(p.s.cfgHist)-1, ri.ti, p.s.seq
 	}
 	p.s.rpcs = kern.Push(p.s.rpcs, rec)
 }
@@ -268,6 +281,12 @@ func (p *fakePool) Close() error {
 	p.s.k.Yield("pool:Close")
 	if p.closed == 0 {
 		p.closedCfg = p.s.curUpd
+		me := p.s.k.Me()
+		for _, c := range p.s.cfgHist {
+			if c.task != nil && c.task == me {
+				p.closedBy = c
+			}
+		}
 	}
 	p.closed++
 	p.setState(connectivity.Shutdown)
@@ -319,12 +338,16 @@ type sim struct {
 
 	// concurrent bursts: history of accepted configurations, the one being
 	// applied by the (serialized) update task and the number of completed updates
-	solo     bool // probes run as the only released task
-	lastOpts *grpcgcp.GCPMultiEndpointOptions
-	cfgHist  []cfgRec
-	curUpd   int
-	updDone  int
-	judgedTo int
+	solo      bool // probes run as the only released task
+	lastOpts  *grpcgcp.GCPMultiEndpointOptions
+	cfgHist   []*cfgRec
+	seq       int // harness event sequence (concurrent bursts)
+	parUsed   bool
+	lastSpec  *OptsSpec
+	concCalls []*callRec
+	curUpd    int
+	updDone   int
+	judgedTo  int
 }
 
 //go:norace
@@ -442,6 +465,7 @@ func (s *sim) call(name string, group int, fn func()) (po *callRec) {
 }
 
 type callRec struct {
+	reported bool
 	name     string
 	t        *kern.Task
 	done     bool
@@ -589,7 +613,7 @@ func (s *sim) accept(o OptsSpec) {
 		s.prevME[k] = v
 	}
 	s.def = meNames[o.Default%3]
-	h := cfgRec{mes: map[string]MESpec{}, def: s.def}
+	h := &cfgRec{mes: map[string]MESpec{}, def: s.def}
 	for k, v := range s.mes {
 		h.mes[k] = v
 	}
@@ -605,6 +629,18 @@ func (s *sim) accept(o OptsSpec) {
 //
 //go:norace
 func (s *sim) judgeConcurrent() {
+	// no call into the object may panic, whatever it overlapped with
+	for _, c := range s.concCalls {
+		if c.panicked != "" && !c.reported && !s.stop {
+			c.reported = true
+			fn := simkit.FuncOfStack(c.stack)
+			if c.name == "rpc" {
+				s.vio("C16", "rpc-panic", fn, fmt.Sprintf("RPC issued while updates/monitors were running panicked in %s: %s", fn, c.panicked))
+			} else {
+				s.vio("C16", "panic", fn, fmt.Sprintf("%s panicked in %s: %s", c.name, fn, c.panicked))
+			}
+		}
+	}
 	for ; s.judgedTo < len(s.rpcs); s.judgedTo++ {
 		r := s.rpcs[s.judgedTo]
 		if !r.conc || s.stop {
@@ -615,14 +651,25 @@ func (s *sim) judgeConcurrent() {
 			s.res.Count("probe:concurrent_rpc_overlapped_update", 1)
 		}
 		p := r.pool
-		if p.closedCfg >= 0 && p.closedCfg <= r.lower {
-			s.vio("C15", "rpc-on-pool-closed-before-invocation", "concurrent", fmt.Sprintf("RPC with name %q was invoked after update #%d had returned (updates in flight up to #%d) and went through pool %s#%d, which update #%d had closed", r.name, r.lower, r.upper, p.endpoint, p.id, p.closedCfg))
+		if cb := p.closedBy; cb != nil && cb.doneSeq >= 0 && cb.doneSeq < r.ti {
+			s.vio("C15", "rpc-on-pool-closed-before-invocation", "concurrent", fmt.Sprintf("RPC with name %q was invoked after the update that closed pool %s#%d had returned (updates returned by then: %d, started by the time it reached the pool: %d) and still went through that pool", r.name, p.endpoint, p.id, r.lower, r.upper))
 			continue
 		}
 		ok := false
 		var seen []string
-		for j := r.lower; j <= r.upper && j < len(s.cfgHist) && !ok; j++ {
+		for j := 0; j <= r.upper && j < len(s.cfgHist) && !ok; j++ {
 			c := s.cfgHist[j]
+			// configuration j cannot be in effect any more when the RPC is invoked if
+			// an update that began after j had returned has itself returned by then
+			over := false
+			for k, o := range s.cfgHist {
+				if k != j && c.doneSeq >= 0 && o.startSeq > c.doneSeq && o.doneSeq >= 0 && o.doneSeq < r.ti {
+					over = true
+				}
+			}
+			if over {
+				continue
+			}
 			me, known := c.mes[r.name]
 			if !known {
 				me = c.mes[c.def]
@@ -885,12 +932,31 @@ func (s *sim) exec(o Op) {
 			sp.BadDef, sp.EmptyME, sp.DialFail = false, 0, 0
 			s.dialN, s.dialFail = 0, 0
 			idx := len(s.cfgHist)
-			s.call("Update", 1, func() {
+			group := 1 // updates are serialized by the application: the model follows their order
+			if o.Par {
+				group = 0 // ... except this one, issued from a goroutine of its own
+				s.parUsed = true
+				s.res.Count("fault:update_concurrent_with_updates", 1)
+			}
+			var rec *cfgRec
+			opts := s.buildOpts(sp)
+			c := s.call("Update", group, func() {
+				s.seq++
+				rec.startSeq = s.seq
 				s.curUpd = idx
-				_ = s.gme.UpdateMultiEndpoints(s.buildOpts(sp))
-				s.updDone = idx
+				_ = s.gme.UpdateMultiEndpoints(opts)
+				if idx > s.updDone {
+					s.updDone = idx
+				}
+				s.seq++
+				rec.doneSeq = s.seq
 			})
-			s.accept(sp) // updates are serialized (group 1): the model follows their order
+			s.concCalls = append(s.concCalls, c)
+			s.accept(sp)
+			rec = s.cfgHist[idx]
+			rec.startSeq, rec.doneSeq, rec.task = -1, -1, c.t
+			spc := sp
+			s.lastSpec = &spc
 			s.res.Count("op:update", 1)
 			s.settle(o)
 			return
@@ -1017,11 +1083,12 @@ func (s *sim) exec(o Op) {
 		}
 		s.res.Count("op:rpc", 1)
 		if s.plan.Concurrent {
-			ctx := context.WithValue(context.Background(), lowKey{}, s.updDone)
+			s.seq++
+			ctx := context.WithValue(context.Background(), lowKey{}, rpcInfo{lower: s.updDone, ti: s.seq})
 			if name != "" {
 				ctx = grpcgcp.NewMEContext(ctx, name)
 			}
-			s.call("rpc", 0, func() { _ = s.gme.Invoke(ctx, "/svc/M", nil, nil) })
+			s.concCalls = append(s.concCalls, s.call("rpc", 0, func() { _ = s.gme.Invoke(ctx, "/svc/M", nil, nil) }))
 			s.settle(o)
 			s.judgeConcurrent()
 			for _, r := range s.rpcs {
@@ -1108,6 +1175,21 @@ func (s *sim) heal() {
 	s.judgeConcurrent()
 	if s.stop {
 		return
+	}
+	if s.plan.Concurrent && s.parUsed && s.lastSpec != nil {
+		// updates overlapped each other: which one was applied last is the
+		// scheduler's choice. One more (serialized) update settles the
+		// configuration before the convergence clauses are judged.
+		sp := *s.lastSpec
+		opts := s.buildOpts(sp)
+		c := s.call("Update", 1, func() { _ = s.gme.UpdateMultiEndpoints(opts) })
+		s.k.Quiesce()
+		s.kernelFailure()
+		if s.stop || s.panicked(c, "UpdateMultiEndpoints") {
+			return
+		}
+		s.accept(sp)
+		s.res.Count("probe:settling_update_after_concurrent_updates", 1)
 	}
 	// bounded liveness / convergence: faults stop, all timers drain, then routing
 	// follows the pools' connectivity for every MultiEndpoint
